@@ -49,6 +49,9 @@ def must_see(tier):
         m[impl + ':outcome:unchanged'] = 100
         m[impl + ':outcome:completed'] = 20
         m[impl + ':typeerror-fault-reached-caller'] = 200
+    # (the C range search compares at creation only: a C view that exists
+    # has no comparison left to fail)
+    m['py:view-reused-after-fault'] = 30
     m['c:ledger-checks'] = 1000
     return m
 
@@ -307,6 +310,26 @@ def target_ops(rng, W, m, is_mapping, kind, fam, impl, walk):
     if is_mapping:
         single('items-range', None,
                lambda c: _lst(c.items(W.k(b1), None, True, True)), same)
+    # ONE view object that meets the fault and is used again afterwards
+    # (its cached length / cursor must not remember the interrupted call)
+
+    def view_op(how):
+        def run(c):
+            inject.S.armed = False
+            v = c.keys(W.k(b1), W.k(b2))
+            _VIEW[0] = (v, b1, b2)
+            inject.S.armed = True
+            if how == 'len':
+                return len(v)
+            if how == 'index':
+                try:
+                    return (v[0], v[-1])
+                except IndexError:
+                    return None
+            return _lst(v)
+        return run
+    for how in ('len', 'index', 'iter'):
+        single('view-' + how, None, view_op(how), same)
     # module-level set algebra: the container is an operand, not a target
     oks = [rng.randrange(nk) for _ in range(rng.randint(1, 6))]
     other_kind = rng.choice(['Set', 'TreeSet', 'Bucket', 'BTree'])
@@ -356,6 +379,9 @@ def target_ops(rng, W, m, is_mapping, kind, fam, impl, walk):
            lambda c: _lst(fam.fn('difference', impl)(
                c, [W.k(i) for i in oks]).keys()), same)
     return ops
+
+
+_VIEW = [None]
 
 
 def _lst(seq):
@@ -450,6 +476,7 @@ def run_container(fam, kind, impl, rng, rec, all_n, ci):
                 pass
         finally:
             N = inject.disarm()
+        _VIEW[0] = None
         del c
         if N == 0:
             continue
@@ -531,6 +558,28 @@ def run_container(fam, kind, impl, rng, rec, all_n, ci):
                     'completed' if got == allowed[-1] else 'prefix')
                 rec.ev('%s:outcome:%s' % (impl, outcome))
             rec.seen(impl, kind, name, pos, shape, outcome)
+            # ---- the view that met the fault, used again --------------------
+            vw, _VIEW[0] = _VIEW[0], None
+            if vw is not None:
+                v_, lo_, hi_ = vw
+                base_ = W.KP[0].n
+                wantv = [x for x in ((k_[0] if is_mapping else k_)
+                                     for k_ in got) if lo_ <= x <= hi_]
+                obs = None
+                try:
+                    obs = (len(v_), [k_.n - base_ for k_ in v_],
+                           v_[-1].n - base_ if wantv else None,
+                           v_[0].n - base_ if wantv else None)
+                except Exception as e:
+                    obs = '%s: %s' % (type(e).__name__, e)
+                del v_, vw
+                rec.ev(impl + ':view-reused-after-fault')
+                if obs != (len(wantv), wantv, wantv[-1] if wantv else None,
+                           wantv[0] if wantv else None):
+                    rec.violation('view-misbehaves-after-comparison-error',
+                                  observed=brief(obs, 300),
+                                  expected=brief(wantv, 300), **d)
+                    continue
             # ---- ledger (C) ------------------------------------------------
             if impl == 'c':
                 snap1 = W.led.snapshot([(c, is_mapping, is_tree)])
